@@ -45,6 +45,8 @@ func (l *LineFormatPlanner) ProcessTpl(ctx *shared.PlannerContext) error {
 		return err
 	}
 
+	l.formatStr = ""
+	l.args = nil
 	return l.visitNodes(tpl.Root, l.node)
 }
 
